@@ -197,6 +197,38 @@ pub fn check_case(c: &Case) -> Check {
             MessageContents::DigitalRadarData(d) => check_drd(&c.drd, d)?,
             _ => return Err(Fail::new("drd:stream-wrong-contents", "type 31 message did not decode as digital radar data")),
         }
+        // (4) the message followed, in the same stream, by a sibling radial of the same elevation that lacks the VOL /
+        // ELV / RAD blocks: each message must be reported with exactly its own blocks (nothing carried over)
+        let mut sibling = c.drd.clone();
+        sibling.vol = None;
+        sibling.elv = None;
+        sibling.rad = None;
+        let keep: Vec<bool> = sibling.physical_order.iter().map(|k| ![VOL, ELV, RAD].contains(k)).collect();
+        sibling.pointer_order.retain(|k| ![VOL, ELV, RAD].contains(k));
+        sibling.physical_order.retain(|k| ![VOL, ELV, RAD].contains(k));
+        let mut i = 0;
+        sibling.gaps.retain(|_| {
+            let k = keep.get(i).copied().unwrap_or(true);
+            i += 1;
+            k
+        });
+        sibling.header.az_num = sibling.header.az_num.wrapping_add(1);
+        for pair in [[&c.drd, &sibling], [&sibling, &c.drd]] {
+            let mut two = Vec::new();
+            for d in pair {
+                two.extend_from_slice(&c.header.encode());
+                two.extend_from_slice(&d.encode_body());
+            }
+            let v = no_panic("decode_messages", || decode_messages(&mut Cursor::new(&two[..])))?
+                .map_err(|e| Fail::new("drd:two-message-stream-rejected", format!("{:?}", e)))?;
+            ensure_eq!(v.len(), 2, "drd:two-message-stream-count");
+            for (m, d) in v.iter().zip(pair.iter()) {
+                match m.contents() {
+                    MessageContents::DigitalRadarData(got) => check_drd(d, got).map_err(|f| Fail::new(f.sig, format!("in a two-message stream: {}", f.detail)))?,
+                    _ => return Err(Fail::new("drd:stream-wrong-contents", "type 31 message did not decode as digital radar data")),
+                }
+            }
+        }
     }
     Ok(())
 }
